@@ -49,6 +49,7 @@ package direct
 //@ func (*ShadowsocksNonePacketClientUnpacker).UnpackInPlace
 //@   requires unpackArgsOK(b, packetStart, packetLen)
 //@   modifies nothing
+//@   ensures isnil(err) <==> (conn.mappedEq(packetSourceAddrPort, p.serverAddrPort) && socks5.ipAddrParsable(b[packetStart:packetStart+packetLen]))
 //@   ensures isnil(err) ==> payloadStart >= packetStart + socks5.LengthOfAddrFromAddrPort(payloadSourceAddrPort) && payloadLen >= 0 && payloadStart <= packetStart + packetLen && payloadStart + payloadLen == packetStart + packetLen
 
 //@ func (ShadowsocksNonePacketServerPacker).PackInPlace
@@ -61,6 +62,7 @@ package direct
 
 //@ func (*ShadowsocksNonePacketServerUnpacker).UnpackInPlace
 //@   requires unpackArgsOK(b, packetStart, packetLen) && socks5.dcWF(addr(p.domainCache))
+//@   ensures isnil(err) <==> socks5.addrParsable(b[packetStart:packetStart+packetLen])
 //@   ensures isnil(err) ==> conn.AddrWF(targetAddr) && targetAddr.IsValid()
 //@   ensures isnil(err) ==> payloadStart >= packetStart + socks5.LengthOfAddrFromConnAddr(targetAddr) && payloadLen >= 0 && payloadStart <= packetStart + packetLen && payloadStart + payloadLen == packetStart + packetLen
 
@@ -77,6 +79,7 @@ package direct
 //@ func (*Socks5PacketClientUnpacker).UnpackInPlace
 //@   requires unpackArgsOK(b, packetStart, packetLen)
 //@   modifies nothing
+//@   ensures isnil(err) <==> (conn.mappedEq(packetSourceAddrPort, p.serverAddrPort) && packetLen >= 3 && b[packetStart + 2] == 0 && socks5.ipAddrParsable(b[packetStart+3:packetStart+packetLen]))
 //@   ensures isnil(err) ==> payloadStart >= packetStart + 3 + socks5.LengthOfAddrFromAddrPort(payloadSourceAddrPort) && payloadLen >= 0 && payloadStart <= packetStart + packetLen && payloadStart + payloadLen == packetStart + packetLen
 
 //@ func (Socks5PacketServerPacker).PackInPlace
@@ -87,8 +90,10 @@ package direct
 //@   ensures isnil(err) ==> packetLen <= maxPacketLen
 //@   ensures !isnil(err) ==> err == zerocopy.ErrPayloadTooBig
 
+// a packet is refused only if it is shorter than the fixed header, fragmented, or its address is malformed
 //@ func (*Socks5PacketServerUnpacker).UnpackInPlace
 //@   requires unpackArgsOK(b, packetStart, packetLen) && socks5.dcWF(addr(p.domainCache))
+//@   ensures isnil(err) <==> (packetLen >= 3 && b[packetStart + 2] == 0 && socks5.addrParsable(b[packetStart+3:packetStart+packetLen]))
 //@   ensures isnil(err) ==> conn.AddrWF(targetAddr) && targetAddr.IsValid()
 //@   ensures isnil(err) ==> payloadStart >= packetStart + 3 + socks5.LengthOfAddrFromConnAddr(targetAddr) && payloadLen >= 0 && payloadStart <= packetStart + packetLen && payloadStart + payloadLen == packetStart + packetLen
 
